@@ -173,6 +173,38 @@ func c13(c *Ctx) {
 		{fn: "codecs/av1/obu.ParseOBUHeader", want: []int{1, 2}, why: "OBU header, +1 with the extension flag"},
 		{fn: "codecs/av1/obu.ReadLeb128", want: []int{1}, minOnly: true, why: "a one-octet LEB128 value"}})
 	r.Floor("AV1 layout/structure rows", n, 15)
+	lostUpdateRule(c, "/codecs", "/codecs/av1/frame", "/codecs/av1/obu")
+	// the deprecated frame assembler: the Z (continuation) flag concerns the first element of a packet
+	// only; handing the unchanged pkt.Z to the per-element step on every iteration glues every element to
+	// the kept fragment (or drops it)
+	if rf := p.Func("codecs/av1/frame.(*AV1).ReadFrames"); rf != nil {
+		bad := ""
+		nArgs := 0
+		for _, b := range rf.Blocks {
+			if !inAnyLoop(b) {
+				continue
+			}
+			for _, in := range b.Instrs {
+				call, ok := in.(*ssa.Call)
+				if !ok || call.Call.StaticCallee() == nil || !core.InModule(call.Call.StaticCallee()) {
+					continue
+				}
+				for _, a := range call.Call.Args {
+					bt, isB := a.Type().Underlying().(*types.Basic)
+					if !isB || bt.Kind() != types.Bool {
+						continue
+					}
+					nArgs++
+					if loadedField(a) == "Z" {
+						bad = p.Position(call.Pos())
+					}
+				}
+			}
+		}
+		n++
+		r.Add("STRUCT.firstonly", core.FuncName(rf), "the continuation flag Z is not handed unchanged to every element of the packet", p.Position(rf.Pos()), bad == "",
+			"the call at "+bad+" inside the element loop receives pkt.Z itself: it holds for every element, not only the first")
+	}
 	var entries []*ssa.Function
 	for _, nme := range []string{"codecs.(*AV1Payloader).Payload", "codecs.(*AV1Depacketizer).Unmarshal", "codecs.(*AV1Packet).Unmarshal", "codecs/av1/frame.(*AV1).ReadFrames",
 		"codecs/av1/obu.ReadLeb128", "codecs/av1/obu.WriteToLeb128", "codecs/av1/obu.ParseOBUHeader", "codecs/av1/obu.(*Header).Marshal"} {
